@@ -611,6 +611,40 @@ def _no_consumer_cache(run, P):
 
 
 def _shared(run, P):
+    # an identifier that was handed out stays taken: nothing in the generators reaches
+    # into a name generator's books to take names or counters out again
+    books = ("existing_names", "prefix_to_counter")
+    takers = []
+    n_scanned = 0
+    for m in P.repo_modules():
+        if not m.name.startswith("dagrt.codegen"):
+            continue
+        for fn in m.functions.values():
+            n_scanned += 1
+            for x in ast.walk(fn.node):
+                tgt = None
+                if isinstance(x, ast.Call) and isinstance(x.func, ast.Attribute) \
+                        and x.func.attr in ("discard", "remove", "clear", "pop", "popitem",
+                                            "difference_update", "intersection_update") \
+                        and isinstance(x.func.value, ast.Attribute) and x.func.value.attr in books:
+                    tgt = x
+                elif isinstance(x, ast.Delete) and any(
+                        isinstance(z, ast.Attribute) and z.attr in books
+                        for t in x.targets for z in ast.walk(t)):
+                    tgt = x
+                elif isinstance(x, (ast.Assign, ast.AugAssign)) and any(
+                        isinstance(t, ast.Attribute) and t.attr in books
+                        for t in (x.targets if isinstance(x, ast.Assign) else [x.target])):
+                    tgt = x
+                if tgt is not None:
+                    takers.append((fn, tgt))
+    run.ob("C13.shared", takers[0][0] if takers else P.module("dagrt.codegen.fortran"),
+           takers[0][1] if takers else None, not takers,
+           construct=f"no function of dagrt.codegen ({n_scanned} scanned) takes names or counters "
+                     f"out of a name generator" + (f" (found {norm(takers[0][1], 60)})" if takers else ""),
+           why="all Fortran identifiers of a module share one scope for the functions and one "
+               "generator: a name that is forgotten is handed out a second time, for another "
+               "variable or another function")
     F = P.cls("dagrt.codegen.fortran.FortranNameManager")
     init = F.methods["__init__"]
     gens = []
